@@ -84,14 +84,14 @@ Fixpoint all_some {A} (l : list (option A)) : option (list A) :=
 Definition Qsum (l : list Q) : Q := fold_left Qplus l 0%Q.
 
 (* row: |obs_k - (c_k + p_k)/total| <= eps and |sum obs - 1| <= K*eps, provided the
-   total is not 0, the pseudocounts are finite and >= 0 and the observation is finite *)
+   total is not 0 and below 2^100, the pseudocounts are finite and >= 0 and the observation is finite *)
 Definition check_freq_row (eps : Q) (pseudo : list F32.t) (counts : list N) (obs : list F32.t) : bool :=
   match all_some (map f32_to_Q pseudo), all_some (map f32_to_Q obs) with
   | Some p, Some o =>
       if forallb (fun x => Qleb 0 x) p then
         let num := map2 (fun c x => (Z.of_N c # 1) + x)%Q counts p in
         let tot := Qsum num in
-        if Qeq_bool tot 0 then true
+        if Qeq_bool tot 0 || negb (Qleb tot (Z.pow 2 100 # 1)) then true   (* 0/0, or binary32 overflow of the total *)
         else (length o =? length num)
              && forallb (fun b => b) (map2 (fun x y => Qleb (Qabs (x - y / tot)) eps) o num)
              && Qleb (Qabs (Qsum o - 1)) (eps * (Z.of_nat (length o) # 1))
@@ -117,6 +117,26 @@ Definition check_weight (rel tiny : Q) (bg : list F32.t) (fq wm : list (list F32
   && forallb (fun b => b)
        (map2 (fun fr wr => (length fr =? length wr) && (length fr =? length bg)
                            && forallb (fun b => b) (map3 (check_weight_cell rel tiny) fr bg wr)) fq wm).
+
+(* rescale: the result is the weight matrix for the new background wherever the old
+   background was not 0, and 0 wherever the new background is 0 *)
+Definition check_rescale_cell (rel tiny : Q) (f old new w : F32.t) : bool :=
+  if F32.eq new F32.zero then F32.eq w F32.zero
+  else if F32.eq old F32.zero then true
+  else check_weight_cell rel tiny f new w.
+
+Fixpoint map4 {A B C D E : Type} (f : A -> B -> C -> D -> E) (l1 : list A) (l2 : list B)
+  (l3 : list C) (l4 : list D) : list E :=
+  match l1, l2, l3, l4 with
+  | a :: r1, b :: r2, c :: r3, d :: r4 => f a b c d :: map4 f r1 r2 r3 r4
+  | _, _, _, _ => []
+  end.
+
+Definition check_rescale (rel tiny : Q) (old new : list F32.t) (fq rs : list (list F32.t)) : bool :=
+  (length fq =? length rs)
+  && forallb (fun b => b)
+       (map2 (fun fr wr => (length fr =? length wr) && (length fr =? length old) && (length fr =? length new)
+                           && forallb (fun b => b) (map4 (check_rescale_cell rel tiny) fr old new wr)) fq rs).
 
 (* ---------- C09: scores ---------- *)
 
